@@ -150,14 +150,21 @@ def sub_cases(draw, tier="quick"):
     ps = S.all_prefixes(recs)
     sel = draw(st.lists(st.sampled_from(ps), min_size=0 if draw(st.integers(0, 4)) == 0 else 1, max_size=4)) if ps else []
     sel += draw(st.lists(st.sampled_from(["zz", "", "A", "a"]), max_size=2))
-    return {"records": recs, "prefixes": sel, "build": draw(st.sampled_from(BUILD_MODES))}
+    return {"records": recs, "prefixes": sel, "build": draw(st.sampled_from(BUILD_MODES)),
+            "as": draw(st.sampled_from(["list", "list", "set", "tuple", "frozenset", "generator", "iterator", "dict-keys", "map"]))}
 
 
 def check_sub(case, stats: Stats) -> None:
     stats.ev()
     recs, sel = case["records"], case["prefixes"]
     parent = mk_converter_via({"delimiter": ":", "records": recs}, case.get("build", "at-once"))
-    sub = parent.get_subconverter(sel)
+    # P is documented as an Iterable[str]: every way of passing the same prefixes must select the same records
+    shape = case.get("as", "list")
+    arg = {"list": lambda: list(sel), "set": lambda: set(sel), "tuple": lambda: tuple(sel), "frozenset": lambda: frozenset(sel),
+           "generator": lambda: (x for x in sel), "iterator": lambda: iter(list(sel)), "dict-keys": lambda: dict.fromkeys(sel).keys(),
+           "map": lambda: map(str, sel)}[shape]()
+    stats.cls("P-passed-as:" + ("one-shot-iterator" if shape in ("generator", "iterator", "map") else "collection"))
+    sub = parent.get_subconverter(arg)
     keep = [r for r in recs if set(prefixes_of(r)) & set(sel)]
     if norm_records(dump_records(sub)) != norm_records(keep):
         raise Violation(f"get_subconverter({sel!r}) has records {norm_records(dump_records(sub))!r}, expected exactly {norm_records(keep)!r}")
@@ -191,5 +198,5 @@ SUBS = [
     Sub(name="chain", check=check_chain, strategy=lambda tier: chain_cases(tier), n={"quick": 1500, "thorough": 4000},
         required_classes=("chain:ok", "chain:ValueError", "nt:bridge", "nt:overlap-synonym-only-cs", "nt:overlap-case-only-ci", "nt:overlap-case-only-cs")),
     Sub(name="subconverter", check=check_sub, strategy=lambda tier: sub_cases(tier), n={"quick": 700, "thorough": 2000},
-        required_classes=("sub:empty", "sub:proper", "sub:all", "nt:subset-through-synonym")),
+        required_classes=("sub:empty", "sub:proper", "sub:all", "nt:subset-through-synonym", "P-passed-as:one-shot-iterator", "P-passed-as:collection")),
 ]
